@@ -64,6 +64,12 @@ static void gen_crystal(xv_rng *r, m_crystal *c, const char *forced_name) {
   else if (xv_below(r, 6) == 0) {   /* families of long names that share their first 20+ characters (files cannot express them: %20s) */
     static const char *fam[] = { "Quartz_alpha_lowtemp_", "LongCrystalNamePrefix__", "abcdefghijklmnopqrst", "Muscovite_2M1_polytype_sample" };
     int o = snprintf(c->name, sizeof c->name, "%s", fam[xv_below(r, 4)]); n = xv_below(r, 5); for (k = 0; k < n && o < 46; k++) c->name[o++] = al[xv_below(r, 63)]; c->name[o] = 0; }
+  else if (xv_below(r, 5) == 0) {   /* names holding bytes >= 0x80 (UTF-8 / Latin-1 letters) among short ASCII stems: they sort AFTER every ASCII byte (strcmp compares
+                                     * unsigned chars) and first differ from their ASCII neighbours exactly at such a byte */
+    static const char *stem[] = { "S", "Si", "q", "qu", "b", "Z", "a" }; static const unsigned char hi[] = { 0xC3, 0xA9, 0xE9, 0xFC, 0xFF, 0x80, 0xCE, 0xB2 };
+    int o = snprintf(c->name, sizeof c->name, "%s", stem[xv_below(r, 7)]); n = 1 + xv_below(r, 4);
+    for (k = 0; k < n && o < 18; k++) c->name[o++] = xv_below(r, 2) ? (char)hi[xv_below(r, 8)] : al[xv_below(r, 63)];
+    c->name[o] = 0; }
   else { n = 1 + xv_below(r, 14); for (k = 0; k < n; k++) c->name[k] = al[xv_below(r, k ? 63 : 52)]; c->name[n] = 0; }
   for (;;) {
     double v;
@@ -141,7 +147,8 @@ static void check_array(m_array *a, const char *after) {
 static void write_crystal_file(FILE *f, const m_crystal *c, int corrupt, xv_rng *r) {
   int k;
   if (corrupt == 1) fprintf(f, "#S %s\n", c->name);                         /* malformed #S (number missing) */
-  else fprintf(f, "#S %d %s\n", c->atom[0].Zatom, c->name);
+  else { static const char *nf[] = { "#S %d %s\n", "#S %02d %s\n", "#S %03d %s\n", "#S %d %s\n", "#S +%d %s\n", "#S %05d %s\n" };     /* scan numbers as SPEC files write them: plain, zero-padded, signed */
+    fprintf(f, nf[xv_below(r, 6)], c->atom[0].Zatom, c->name); }
   if (corrupt == 2) fprintf(f, "#UCELL %.15g %.15g %.15g\n", c->cell[0], c->cell[1], c->cell[2]);   /* short UCELL */
   else if (corrupt != 3) fprintf(f, "#UCELL %.15g %.15g %.15g %.15g %.15g %.15g\n", c->cell[0], c->cell[1], c->cell[2], c->cell[3], c->cell[4], c->cell[5]);
   if (corrupt == 4) fprintf(f, "#UCELL 1 2 3 90 90 90\n");                    /* two UCELL lines */
